@@ -530,6 +530,57 @@ func (b *boundsAn) directGuard(v ssa.Value, at *ssa.BasicBlock, kind guardKind, 
 				}
 			}
 			if argIdx < 0 || argIdx >= len(g.Params) {
+				// the validator is handed the object the value is a field of and tests obj.f itself
+				var fa0 *ssa.FieldAddr
+				for a := range in {
+					if ld, ok := a.(*ssa.UnOp); ok && ld.Op == token.MUL {
+						if fa, ok := ld.X.(*ssa.FieldAddr); ok {
+							fa0 = fa
+						}
+					}
+				}
+				if fa0 == nil {
+					continue
+				}
+				oi := -1
+				for i, a := range c.Call.Args {
+					if a == fa0.X || sameBase(a, fa0.X) {
+						oi = i
+					}
+				}
+				iff, nilIdx := errNilEdge(fn, c)
+				if oi < 0 || oi >= len(g.Params) || iff == nil || !edgeDominates(iff.Block(), nilIdx, at) {
+					continue
+				}
+				var loads []ssa.Value
+				allInstrs(g, func(gi ssa.Instruction) {
+					if ld, ok := gi.(*ssa.UnOp); ok && ld.Op == token.MUL {
+						if fa, ok := ld.X.(*ssa.FieldAddr); ok && fa.X == ssa.Value(g.Params[oi]) && fa.Field == fa0.Field {
+							loads = append(loads, ld)
+						}
+					}
+				})
+				okAll, any := len(loads) > 0, false
+				for _, ret := range returnsOf(g) {
+					if classifyReturn(ret) == RetError {
+						continue
+					}
+					any = true
+					guarded := false
+					for _, ld := range loads {
+						sub := &boundsAn{w: b.w, scope: b.scope, tv: map[ssa.Value]bool{ld: true}, tlen: b.tlen, tf: b.tf, retT: b.retT, origin: b.origin,
+							loopBound: b.loopBound, fieldOK: b.fieldOK, fieldOKIdx: b.fieldOKIdx, fieldNZ: b.fieldNZ, trustChecksums: b.trustChecksums}
+						if sub.directGuard(ld, ret.Block(), kind, depth+3) {
+							guarded = true
+						}
+					}
+					if !guarded {
+						okAll = false
+					}
+				}
+				if okAll && any {
+					return true
+				}
 				continue
 			}
 			iff, nilIdx := errNilEdge(fn, c)
@@ -2071,6 +2122,60 @@ func (b *boundsAn) minConst(v ssa.Value, at *ssa.BasicBlock, depth int) (res int
 				}
 			}
 			if argIdx < 0 || argIdx >= len(g.Params) {
+				// the validator is handed the object the value is a field of: validateX(obj) tests obj.f itself
+				var fld *types.Var
+				var base ssa.Value
+				for a := range in {
+					if ld, ok := a.(*ssa.UnOp); ok && ld.Op == token.MUL {
+						if fa, ok := ld.X.(*ssa.FieldAddr); ok {
+							fld, base = fa.X.Type().Underlying().(*types.Pointer).Elem().Underlying().(*types.Struct).Field(fa.Field), fa.X
+						}
+					}
+				}
+				if fld == nil {
+					continue
+				}
+				oi := -1
+				for i, a := range c.Call.Args {
+					if a == base || sameBase(a, base) {
+						oi = i
+					}
+				}
+				iff, nilIdx := errNilEdge(fn, c)
+				if oi < 0 || oi >= len(g.Params) || iff == nil || !edgeDominates(iff.Block(), nilIdx, at) {
+					continue
+				}
+				var loads []ssa.Value
+				allInstrs(g, func(gi ssa.Instruction) {
+					if ld, ok := gi.(*ssa.UnOp); ok && ld.Op == token.MUL {
+						if fa, ok := ld.X.(*ssa.FieldAddr); ok && fa.X == ssa.Value(g.Params[oi]) {
+							if st, ok := fa.X.Type().Underlying().(*types.Pointer); ok {
+								if ss, ok := st.Elem().Underlying().(*types.Struct); ok && ss.Field(fa.Field) == fld {
+									loads = append(loads, ld)
+								}
+							}
+						}
+					}
+				})
+				lo, any := int64(-1), false
+				for _, ret := range returnsOf(g) {
+					if classifyReturn(ret) == RetError {
+						continue
+					}
+					any = true
+					k := int64(0)
+					for _, ld := range loads {
+						if kk := b.minConst(ld, ret.Block(), depth+2); kk > k {
+							k = kk
+						}
+					}
+					if lo < 0 || k < lo {
+						lo = k
+					}
+				}
+				if any && lo > 0 {
+					up(lo)
+				}
 				continue
 			}
 			iff, nilIdx := errNilEdge(fn, c)
